@@ -74,12 +74,18 @@ const KINDS: &[Kind] = &[
     Kind { name: "type: arguments on a later line that an un-annotated imported function cannot add", body: &["x := @NS@.inf2_q(1,\n    \"two\")"], top: &[], either: false },
     Kind { name: "type: std function whose signature constrains the element type", body: &["s_q := set.from_list([1])", "set.add(s_q, \"x\")"], top: &[], either: false },
     Kind { name: "type: std fold with a callback that cannot add its arguments", body: &["x := fold([1], \"s\", pu e, acc -> acc + e end)"], top: &[], either: false },
+    // a value that does not fit a type DECLARED in another file: the construction / call site is where the program is wrong
+    Kind { name: "type: payload of another type for a variant of an imported enum", body: &["x := @NS@.EN_q.Grey \"dark\""], top: &[], either: false },
+    Kind { name: "type: tuple payload with a wrong element for a variant of an imported enum", body: &["x := @NS@.EN_q.Pair (1, 2)"], top: &[], either: false },
+    Kind { name: "type: variant the imported enum does not have", body: &["x := @NS@.EN_q.Blue"], top: &[], either: false },
+    Kind { name: "type: field of another type for an imported blob", body: &["x := @NS@.HB_q { f: \"s\" }"], top: &[], either: false },
+    Kind { name: "type: argument of another type for an annotated imported function", body: &["x := @NS@.lit2_q(\"s\")"], top: &[], either: false },
     // the same name imported from two different modules: the duplicate belongs to the importing file
     Kind { name: "one name from-imported from two modules", body: &[], top: &["from @NS@ use (exp_q)", "from @NS2@ use (exp_q)"], either: true },
     Kind { name: "one alias for names from-imported from two modules", body: &[], top: &["from @NS@ use (exp_q as al_q)", "from @NS2@ use (lit2_q as al_q)"], either: true },
 ];
 
-const NS_EXPORTS: &str = "exp_q :: 7\nlit2_q :: fn a: int -> int do\n    a\nend\nHB_q :: blob {\n    f: int,\n}\ninf2_q :: fn a, b ->\n    a + b\nend\ninfl_q :: fn a, b ->\n    a < b\nend\ninff_q :: fn p ->\n    p.f\nend\ninfi_q :: fn p ->\n    p[1]\nend\n";
+const NS_EXPORTS: &str = "exp_q :: 7\nlit2_q :: fn a: int -> int do\n    a\nend\nHB_q :: blob {\n    f: int,\n}\ninf2_q :: fn a, b ->\n    a + b\nend\ninfl_q :: fn a, b ->\n    a < b\nend\ninff_q :: fn p ->\n    p.f\nend\nEN_q :: enum\n    Grey int,\n    Red,\n    Pair (int, str),\nend\ninfi_q :: fn p ->\n    p[1]\nend\n";
 
 #[derive(Clone, Copy, PartialEq, Debug)]
 enum Shape {
